@@ -319,7 +319,7 @@ func cmdRun(prop, tier string) int {
 				v["race_build"] = true
 			}
 			res := replayCase(s, v, 120*time.Second)
-			if res.died {
+			if res.died || (res.violated && !res.infra) {
 				v["class"], v["signature"], v["detail"] = res.class, res.sig, res.detail
 				viols = append(viols, v)
 				found = true
@@ -422,7 +422,7 @@ func fanOut(s *scratch, bin, outDir string, race bool, prop, tier string, seed u
 				var stderr bytes.Buffer
 				c.Stderr = &stderr
 				c.Stdout = &stderr
-				err := c.Run()
+				err := runWatched(c, filepath.Join(outDir, fmt.Sprintf("progress.%d.log", k)), hangLimit(tier))
 				if err == nil {
 					return
 				}
@@ -456,6 +456,47 @@ func fanOut(s *scratch, bin, outDir string, race bool, prop, tier string, seed u
 	}
 	wg.Wait()
 	return crashes, infraErr
+}
+
+func hangLimit(tier string) time.Duration {
+	if v := os.Getenv("VERIF_HANG_SECONDS"); v != "" {
+		if n, err := strconv.Atoi(v); err == nil && n > 0 {
+			return time.Duration(n) * time.Second
+		}
+	}
+	if tier == "thorough" {
+		return 600 * time.Second
+	}
+	return 150 * time.Second
+}
+
+// runWatched runs a worker and kills it when its progress file has not grown for
+// `limit` (backstop for hangs the simulated scheduler cannot see, e.g. a lock that
+// stays locked after the schedule has ended).
+func runWatched(c *exec.Cmd, progress string, limit time.Duration) error {
+	if err := c.Start(); err != nil {
+		return err
+	}
+	done := make(chan error, 1)
+	go func() { done <- c.Wait() }()
+	lastSize, lastChange := int64(-1), time.Now()
+	tick := time.NewTicker(2 * time.Second)
+	defer tick.Stop()
+	for {
+		select {
+		case err := <-done:
+			return err
+		case <-tick.C:
+			if fi, err := os.Stat(progress); err == nil && fi.Size() != lastSize {
+				lastSize, lastChange = fi.Size(), time.Now()
+			}
+			if time.Since(lastChange) > limit {
+				c.Process.Kill()
+				<-done
+				return fmt.Errorf("signal: killed (no progress for %v)", limit)
+			}
+		}
+	}
 }
 
 func raceEnv(outDir string, race bool) string {
